@@ -313,7 +313,8 @@ func init() {
 			run("toma", false, s, e, -1, 2, false, false), run("toma", true, s, e, -1, 1, false, false), run("toma", false, -1, -1, w, 3, false, false),
 			run("toma", false, -1, e, -1, 1, false, false), run("toma", true, s, -1, -1, 1, false, false),
 			run("topa", false, -1, -1, -1, 2, false, false), run("topa", false, s, e, -1, 1, false, false),
-			run("topa", false, -1, -1, -1, 1, true, false), run("topa", false, -1, e, w, 3, false, true), run("topa", false, s, -1, -1, 1, true, false)}
+			run("topa", false, -1, -1, -1, 1, true, false), run("topa", false, -1, e, w, 3, false, true), run("topa", false, s, -1, -1, 1, true, false),
+			run("samvar", false, -1, -1, -1, 3, false, false), run("topavar", false, -1, -1, -1, 1, false, false)}
 		return map[string]interface{}{"id": "randsam-" + itoa(i), "ref": symList(ref), "recs": recs, "runs": runs}
 	}
 }
